@@ -2,6 +2,7 @@ import Drv.Trunc
 import Drv.Walk
 import Drv.Rules
 import Drv.Render
+import Drv.Loader
 /-!
 Line-protocol driver: one operation per line on stdin, one canonical answer line on stdout.
 Every engine exports `handle : List String → Option String` answering only its own ops;
@@ -13,7 +14,8 @@ def handlers : List (List String → Option String) := [
   Drv.Trunc.handle,
   Drv.WalkD.handle,
   Drv.RulesD.handle,
-  Drv.RenderD.handle
+  Drv.RenderD.handle,
+  Drv.LoaderD.handle
 ]
 
 def dispatch (fs : List String) : Option String :=
